@@ -38,6 +38,8 @@ mod flusher;
 mod log;
 mod record;
 mod recovery;
+#[cfg(grafeo_verif)]
+pub mod verif;
 
 pub use async_log::AsyncWalManager;
 pub use flusher::{AdaptiveFlusher, FlusherStats};
